@@ -48,6 +48,42 @@ theorem roleOf_params_func {kind a : String} {hi fi : Bool} (h : roleOf kind a h
                     · split at h <;> cases h
                     · cases h
 
+theorem roleOf_catchParam {kind a : String} {hi fi : Bool} (h : roleOf kind a hi fi = .catchParam) :
+    (kind == "Catch") = true := by
+  unfold roleOf at h
+  split at h
+  · cases h
+  · split at h
+    · split at h
+      · cases h
+      · split at h <;> cases h
+    · split at h
+      · split at h
+        · cases h
+        · split at h <;> cases h
+      · split at h
+        · split at h <;> cases h
+        · split at h
+          · split at h
+            · cases h
+            · split at h <;> cases h
+          · split at h
+            · assumption
+            · split at h
+              · split at h <;> cases h
+              · split at h
+                · split at h <;> cases h
+                · split at h
+                  · split at h <;> cases h
+                  · split at h
+                    · split at h <;> cases h
+                    · cases h
+
+/-- what the context of the `inner` attributes of a node of kind `kind` at `p` looks like -/
+def InnerOK (kind : String) (p : SPath) (inner : Ctx) : Prop :=
+  (isFunctionKind kind = true → inner.varKind = .var ∧ inner.varScope = p) ∧
+  ((kind == "Catch") = true → ∃ c E', inner.env = { kind := .catch, scope := p, names := [c] } :: E')
+
 section
 variable {fin : Final}
 
@@ -55,6 +91,7 @@ variable {fin : Final}
 theorem roleCond_of_facts {octx ictx : Ctx} {omc imc : MCtx} (hio : Inv fin octx omc) (hii : Inv fin ictx imc)
     (p : SPath) (a : String) (v : Val) (role : Role) (fF fI fO cF cI cO : Bool)
     (hparams : role = .params → ictx.varKind = .var ∧ ictx.varScope = p)
+    (hcatch : role = .catchParam → ∃ c E', ictx.env = { kind := .catch, scope := p, names := [c] } :: E')
     (h : roleFacts fin omc imc p a v role fF fI fO = true)
     (hF : fF = true → cF = true) (hI : fI = true → cI = true) (hO : fO = true → cO = true) :
     roleCond (tauFin fin) (rhoFin fin) octx p a v role cF cI cO = true := by
@@ -69,7 +106,12 @@ theorem roleCond_of_facts {octx ictx : Ctx} {omc imc : MCtx} (hio : Inv fin octx
     have := declSites_declCond hii p a v (by simpa [roleFacts] using h)
     rw [h1, h2] at this
     simpa [roleCond] using this
-  | catchParam => simp [roleFacts] at h
+  | catchParam =>
+    obtain ⟨c, E', he⟩ := hcatch rfl
+    simp only [roleFacts, List.all_eq_true] at h
+    simp only [roleCond, declCond, List.all_eq_true, beq_iff_eq]
+    intro q hq
+    exact catchSite_eq hii he (h q hq)
   | labelDecl => simp [roleFacts] at h
   | labelRef =>
     simp only [roleFacts, List.isEmpty_iff] at h
@@ -95,11 +137,10 @@ theorem roleCond_of_facts {octx ictx : Ctx} {omc imc : MCtx} (hio : Inv fin octx
 /-- entering a node: the environment the node sets up belongs to the record the facts name -/
 theorem enter_of_facts (recs : List Rec) (hgood : ∀ R ∈ recs, ChainGood R.chain)
     {ctx : Ctx} {mc : MCtx} (hi : Inv fin ctx mc) (p : SPath) (k : String) (as : List (String × Val))
-    (hk1 : (k != "Catch") = true) (hk2 : (k != "Label") = true) (inner : MCtx)
+    (hk2 : (k != "Label") = true) (inner : MCtx)
     (h : enterFacts fin recs mc p k as = some inner) :
     enterCond (tauFin fin) (rhoFin fin) p k as = true ∧ Inv fin (enter ctx p k as) inner ∧
-      (isFunctionKind k = true → (enter ctx p k as).varKind = .var ∧ (enter ctx p k as).varScope = p) := by
-  have hc : (k == "Catch") = false := by simpa using hk1
+      InnerOK k p (enter ctx p k as) := by
   have hl : (k == "Label") = false := by simpa using hk2
   unfold enterFacts at h
   by_cases hf : isFunctionKind k = true
@@ -114,7 +155,7 @@ theorem enter_of_facts (recs : List Rec) (hgood : ∀ R ∈ recs, ChainGood R.ch
       | cons A C =>
         rw [hRC] at h
         simp only at h
-        by_cases hall : funcFacts fin mc p k as R.id A C = true
+        by_cases hall : funcFacts fin recs mc p k as R.id A C = true
         · rw [if_pos hall] at h
           simp only [Option.some.injEq] at h
           subst h
@@ -144,19 +185,25 @@ theorem enter_of_facts (recs : List Rec) (hgood : ∀ R ∈ recs, ChainGood R.ch
           -- the inner invariant
           have hinv : Inv fin (enter ctx p k as) { sid := R.id, chain := A :: C } := by
             rw [henter]
-            refine ⟨?_, ⟨_, _, rfl, rfl, rfl⟩, hch⟩
+            refine ⟨?_, rfl, hch⟩
             refine .func p _ ctx.env A C hAk (setEq_iff hset) ?_ hg (hC ▸ al_ne_nil hi.al) (hC ▸ hi.al)
             intro n
             have e : tauN (tauFin fin) .var p n = applyTable ((tablesOfNode fin p).headD (true, [])).2 n := rfl
             rw [e, htab]
-          refine ⟨?_, hinv, fun _ => by rw [henter]; exact ⟨rfl, rfl⟩⟩
+          have hnc : (k == "Catch") = false := by
+            cases hkc : k == "Catch" with
+            | false => rfl
+            | true =>
+              have : k = "Catch" := by simpa using hkc
+              rw [this] at hf; exact absurd hf (by decide)
+          refine ⟨?_, hinv, fun _ => by rw [henter]; exact ⟨rfl, rfl⟩, fun hh => by rw [hnc] at hh; cases hh⟩
           -- enterCond
           unfold enterCond
           simp only [hf, if_true, Bool.and_eq_true]
           have hvk : (enter ctx p k as).varKind = .var := by rw [henter]
           have hvs : (enter ctx p k as).varScope = p := by rw [henter]
           refine ⟨⟨?_, ?_⟩, ?_⟩
-          · have := hoistFactsAttr_cond hinv p.reverse "elements" (sLookup as "elements") hhoist
+          · have := hoistFactsAttr_cond recs hgood hinv p.reverse "elements" (sLookup as "elements") hhoist
             rwa [hvk, hvs] at this
           · cases hv : (if k == "SetPropAssign" then sLookup as "parameter" else sLookup as "parameters") with
             | none => rfl
@@ -178,14 +225,26 @@ theorem enter_of_facts (recs : List Rec) (hgood : ∀ R ∈ recs, ChainGood R.ch
             · simp [hfe]
         · rw [if_neg hall] at h; cases h
   · rw [if_neg hf] at h
-    simp only [Option.some.injEq] at h
-    subst h
-    have henter : enter ctx p k as = ctx := by
-      rw [enter_unfold]
+    by_cases hc : (k == "Catch") = true
+    · rw [if_pos hc] at h
+      obtain ⟨c, hca, hinv, _, _, _, _, _, _, hsc⟩ := catchRec_inv recs hgood hi p.reverse as inner h
+      rw [List.reverse_reverse] at hinv hsc
+      have henter : enter ctx p k as = { ctx with env := { kind := .catch, scope := p, names := [c] } :: ctx.env } := by
+        rw [enter_unfold]
+        simp only [hf, Bool.false_eq_true, if_false, hc, if_true, identAttr_eq, hca]
+      refine ⟨?_, by rw [henter]; exact hinv, fun hh => absurd hh hf, fun _ => ⟨c, ctx.env, by rw [henter]⟩⟩
+      unfold enterCond
+      simp only [hf, Bool.false_eq_true, if_false, hc, if_true]
+      exact hsc
+    · rw [if_neg hc] at h
+      simp only [Option.some.injEq] at h
+      subst h
+      have henter : enter ctx p k as = ctx := by
+        rw [enter_unfold]
+        simp [hf, hc, hl]
+      refine ⟨?_, by rw [henter]; exact hi, fun hh => absurd hh hf, fun hh => absurd hh hc⟩
+      unfold enterCond
       simp [hf, hc, hl]
-    refine ⟨?_, by rw [henter]; exact hi, fun hh => absurd hh hf⟩
-    unfold enterCond
-    simp [hf, hc, hl]
 
 end
 end CalmVerif.Obf
